@@ -18,8 +18,10 @@ import (
 	tmproto "github.com/cometbft/cometbft/proto/tendermint/types"
 	sdk "github.com/cosmos/cosmos-sdk/types"
 
+	upgradetypes "github.com/cosmos/cosmos-sdk/x/upgrade/types"
 	"github.com/kava-labs/kava/app"
 	cdptypes "github.com/kava-labs/kava/x/cdp/types"
+	committeetypes "github.com/kava-labs/kava/x/committee/types"
 	issuancetypes "github.com/kava-labs/kava/x/issuance/types"
 	pricefeedtypes "github.com/kava-labs/kava/x/pricefeed/types"
 	"kavaverif/drivers/world"
@@ -196,9 +198,102 @@ func scenarioIssuanceSeizeLocked(seed uint64) *finding {
 	return nil
 }
 
+// stepBlock delivers txs at the current height, checks invariants, then begins the next block.
+func stepBlock(A app.TestApp, w *world.World, height *int64, t *time.Time, cfg world.Config, txs [][]byte, gap time.Duration, needOK bool) *finding {
+	w.Height, w.Time = *height, *t
+	ra := world.Deliver(A, *height, txs)
+	if ra.Panic != "" {
+		return &finding{*height, "deliver-or-endblock-panic", ra.Panic, nil, cfg}
+	}
+	if needOK {
+		for i, tr := range ra.Txs {
+			if tr.Code != 0 {
+				return &finding{*height, "scenario-setup-failed", fmt.Sprintf("tx %d: %s", i, tr.Log), nil, cfg}
+			}
+		}
+	}
+	if route, msg := checkInvariants(A, *height, *t); route != "" {
+		return &finding{*height, "invariant-broken:" + route, msg, nil, cfg}
+	}
+	*height++
+	*t = t.Add(gap)
+	if _, p := world.Begin(A, *height, *t); p != "" {
+		return &finding{*height, panicSig(p), p, nil, cfg}
+	}
+	return nil
+}
+
+// scenarioStaleCommitteeProposal: an upgrade plan for a height that has passed by the time
+// the deciding votes arrive; the committee begin blocker must close it, not halt the chain.
+func scenarioStaleCommitteeProposal(seed uint64) *finding {
+	cfg := world.RandomConfig(NewRng(seed, 3))
+	w := world.NewWorld(cfg, seed, NewCounters())
+	A := w.Start(NewApp())
+	height, t := int64(2), world.Genesis0
+	w.Height, w.Time = height, t
+	plan := upgradetypes.NewSoftwareUpgradeProposal("up", "plan", upgradetypes.Plan{Name: "stale-plan", Height: 4})
+	m, err := committeetypes.NewMsgSubmitProposal(plan, w.Addrs[0], 1)
+	if err != nil {
+		return &finding{height, "scenario-setup-failed", err.Error(), nil, cfg}
+	}
+	if f := stepBlock(A, w, &height, &t, cfg, [][]byte{w.Sign(A, 0, m)}, 6*time.Second, true); f != nil {
+		return f
+	}
+	for i := 0; i < 3; i++ { // heights 3,4,5 pass without votes
+		if f := stepBlock(A, w, &height, &t, cfg, nil, 6*time.Second, false); f != nil {
+			return f
+		}
+	}
+	w.Height, w.Time = height, t
+	votes := [][]byte{
+		w.Sign(A, 0, committeetypes.NewMsgVote(w.Addrs[0], 1, committeetypes.VOTE_TYPE_YES)),
+		w.Sign(A, w.Member, committeetypes.NewMsgVote(w.Addrs[w.Member], 1, committeetypes.VOTE_TYPE_YES)),
+	}
+	if f := stepBlock(A, w, &height, &t, cfg, votes, 6*time.Second, true); f != nil {
+		if strings.HasPrefix(f.What, "beginblock-panic") {
+			f.What = "beginblock-panic:committee-stale-proposal"
+			f.Txs = []string{"committee.submit upgrade plan height 4 at height 2", "3 empty blocks", "both members vote yes at height 6", "next BeginBlock"}
+		}
+		return f
+	}
+	return stepBlock(A, w, &height, &t, cfg, nil, 6*time.Second, false)
+}
+
+// scenarioCdpDepositorWithdrawsAll: a third-party depositor withdraws exactly its whole
+// deposit, then the CDP is liquidated by the begin blocker after a price drop.
+func scenarioCdpDepositorWithdrawsAll(seed uint64) *finding {
+	cfg := world.RandomConfig(NewRng(seed, 4))
+	cfg.LiqRatioXrp, cfg.XrpPrice, cfg.StabilityFee = "1.5", "1.0", "1.0"
+	w := world.NewWorld(cfg, seed, NewCounters())
+	A := w.Start(NewApp())
+	height, t := int64(2), world.Genesis0
+	w.Height, w.Time = height, t
+	m1 := cdptypes.NewMsgCreateCDP(w.Addrs[0], sdk.NewInt64Coin("xrp", 40_000_000), sdk.NewInt64Coin("usdx", 20_000_001), "xrp-a")
+	m2 := cdptypes.NewMsgDeposit(w.Addrs[0], w.Addrs[1], sdk.NewInt64Coin("xrp", 5_000_000), "xrp-a")
+	if f := stepBlock(A, w, &height, &t, cfg, [][]byte{w.Sign(A, 0, &m1), w.Sign(A, 1, &m2)}, 6*time.Second, true); f != nil {
+		return f
+	}
+	w.Height, w.Time = height, t
+	m3 := cdptypes.NewMsgWithdraw(w.Addrs[0], w.Addrs[1], sdk.NewInt64Coin("xrp", 5_000_000), "xrp-a")
+	if f := stepBlock(A, w, &height, &t, cfg, [][]byte{w.Sign(A, 1, &m3)}, 6*time.Second, true); f != nil {
+		return f
+	}
+	w.Height, w.Time = height, t
+	var ptx [][]byte
+	for _, o := range w.Oracles {
+		ptx = append(ptx, w.Sign(A, o, pricefeedtypes.NewMsgPostPrice(w.Addrs[o].String(), "xrp:usd", sdk.MustNewDecFromStr("0.3"), t.Add(time.Hour))))
+	}
+	if f := stepBlock(A, w, &height, &t, cfg, ptx, 6*time.Second, true); f != nil {
+		return f
+	}
+	return stepBlock(A, w, &height, &t, cfg, nil, 6*time.Second, false)
+}
+
 var scenarios = map[string]func(uint64) *finding{
-	"issuance-seize-locked-vesting": scenarioIssuanceSeizeLocked,
-	"cdp-two-deposits-odd-debt":     scenarioCdpTwoDeposits,
+	"committee-stale-upgrade-proposal": scenarioStaleCommitteeProposal,
+	"cdp-depositor-withdraws-all":      scenarioCdpDepositorWithdrawsAll,
+	"issuance-seize-locked-vesting":    scenarioIssuanceSeizeLocked,
+	"cdp-two-deposits-odd-debt":        scenarioCdpTwoDeposits,
 }
 
 func mkFailure(idx int, f *finding, h hist) Failure {
@@ -241,7 +336,7 @@ func run(o Opts) (*Result, error) {
 		res.Counters = cnt.Map()
 		return res, nil
 	}
-	for _, name := range SortedKeys(map[string]int{"cdp-two-deposits-odd-debt": 1, "issuance-seize-locked-vesting": 1}) {
+	for _, name := range SortedKeys(map[string]int{"cdp-two-deposits-odd-debt": 1, "issuance-seize-locked-vesting": 1, "committee-stale-upgrade-proposal": 1, "cdp-depositor-withdraws-all": 1}) {
 		if f := scenarios[name](o.Seed); f != nil {
 			res.Failures = append(res.Failures, mkFailure(-1, f, hist{Seed: o.Seed, Idx: -1, Scenario: name}))
 		}
